@@ -226,6 +226,14 @@ def null_text(v):
     return None
 
 
+def null_number(v):
+    """the header NULL as a Python float when it is a number (what `curve_arr == NULL` compares with), else None"""
+    t = null_text(v)
+    if t is None or t == "unmodelled":
+        return None
+    return float("nan") if t == "nan" else float.fromhex(t) if t not in ("inf", "-inf") else float(t)
+
+
 def model_request(text, steer, engine="numpy", null_policy="strict", window=None):
     first, last = window if window is not None else steer["windows"][0]
     return {"op": "dt.read", "lines": split_lines(text), "first": first, "last": last, "engine": engine, "null_policy": null_policy,
@@ -320,6 +328,8 @@ def header(vers="2.0", wrap="NO", null="-999.25", dlm=None, declared=(), extra_w
     ls.append("~Well")
     if extra_well:
         ls.append("STRT.M 1.0 : start")
+        ls.append("STOP.M 2.0 : stop")
+        ls.append("STEP.M 1.0 : step")
     if null is not None:
         ls.append("NULL. %s : null value" % null)
     if declared is not None:
